@@ -28,7 +28,6 @@ namespace rh {
 
 using namespace muscle;
 
-static bool * g_lastTreeEmptyFlag = NULL;   // set by the last session to leave: was the tree empty apart from its own directory chain?
 
 // Session subclass: the library's extension mechanism.  Only places sessions under chosen host names
 // and exposes protected read-only accessors for in-process observation.
@@ -40,9 +39,24 @@ public:
    const DataNodeRef & SNode() const {return GetSessionNode();}
    status_t FindNodes(const String & path, Queue<DataNodeRef> & ret) const {return FindMatchingNodes(path, ConstQueryFilterRef(), ret);}
    virtual String GenerateHostName(const IPAddress &, const String &) const {return _host.c_str();}
+   // the global root node belongs to the sessions' shared state and is freed with the last session, so "the tree is empty when the
+   // last session leaves" is observed from inside the last session's own departure, never through a root pointer kept by the harness
+   virtual void AboutToDetachFromServer()
+   {
+      if ((g_strayNodesAtLastDetach)&&(GetSessions().GetNumItems() == 1)&&(GetSessionNode()()))
+      {
+         String mine; (void) GetSessionNode()()->GetNodePath(mine); const std::string me = mine();
+         std::function<void(DataNode &)> walk = [&](DataNode & n){String np; (void) n.GetNodePath(np); const std::string p = np(); const bool isAncestorOrSelfOrBelow = (p.size() <= 1)||(me.compare(0, p.size(), p) == 0)||(p.compare(0, me.size(), me) == 0); if (isAncestorOrSelfOrBelow == false) g_strayNodesAtLastDetach->push_back(p); for (DataNodeRefIterator it = n.GetChildIterator(); it.HasData(); it++) walk(*it.GetValue()());};
+         walk(GetGlobalRoot());
+      }
+      StorageReflectSession::AboutToDetachFromServer();
+   }
+   static std::vector<std::string> * g_strayNodesAtLastDetach;
 private:
    std::string _host;
 };
+
+std::vector<std::string> * HSession::g_strayNodesAtLastDetach = NULL;
 
 inline std::string Flat(const Message & m) {ByteBufferRef b = m.FlattenToByteBuffer(); return b() ? std::string((const char *)b()->GetBuffer(), b()->GetNumBytes()) : std::string();}
 
